@@ -224,6 +224,23 @@ def check_program(env, rec, prog, seedinfo, do_shrink=True):
                     if snaps[0] != snaps[1]:
                         rec.violation("caller-context-changed", case, {"what": f"before {str(snaps[0])[:200]} after {str(snaps[1])[:200]}"})
                         return nontrivial
+                # the same program with EVERY component tag (page and class templates) written through the dynamic
+                # component: judged where the plain tags agreed with the reference
+                if which == "A" and not prob and ref[0] == "ok":
+                    env.n += 1
+                    bd = pg.Built(prog, f"p{env.n}", dynamic_all=True)
+                    try:
+                        gotd, _ = render(env, bd, mode, page_ctx)
+                    finally:
+                        bd.dispose()
+                    rec.observe("dynamic-route-renders")
+                    probd = compare(ref, gotd)
+                    if probd:
+                        known = classify(prog, mode, page_ctx, ref, gotd, listed=tuple(rec.known_ids))
+                        if known and rec.known_finding(known, dict(case, variant="dynamic"), {"what": probd[1][:300]}):
+                            continue
+                        rec.violation("dynamic-route-" + probd[0], dict(case, variant="dynamic"), {"what": probd[1][:500]})
+                        return nontrivial
     finally:
         built.dispose()
     return nontrivial
